@@ -1,6 +1,8 @@
 (* C11 — expectation values and diagnostics equal dense definitions, correctly attributed. *)
 From Coq Require Import List Arith Permutation.
 Import ListNotations.
+From Coq Require Import Ring.
+From Yaqs Require Import LinAlg.TT.
 From Yaqs Require Import Model.ObsAttrib Proofs.ObsAttribP.
 
 (* every observable object of the user's list is evaluated exactly once, whatever the listing order and mixture *)
@@ -21,6 +23,36 @@ Print Assumptions C11_every_object_is_served.
 Theorem C11_centre_discipline : forall l, forallb read_ok (reads l) = true.
 Proof. exact centre_discipline. Qed.
 Print Assumptions C11_centre_discipline.
+
+(* WHY the centre discipline gives the right number: over any commutative ring with an involution, for a chain that is left-isometric
+   before site s and right-isometric after it (the mixed-canonical form the reads above establish), the expectation value summed over
+   ALL basis strings, sum conj(amp) O amp, equals the contraction of the centre tensor alone.  Any length, any bond and physical
+   dimensions.  A two-site operator is the same statement for the merged tensor (step_merge). *)
+Section Expect.
+Variable K : Type.
+Variables (k0 k1 : K) (kadd kmul ksub : K -> K -> K) (kopp : K -> K) (cj : K -> K).
+Hypothesis Kring : ring_theory k0 k1 kadd kmul ksub kopp (@eq K).
+Hypothesis cj_add : forall a b, cj (kadd a b) = kadd (cj a) (cj b).
+Hypothesis cj_mul : forall a b, cj (kmul a b) = kmul (cj a) (cj b).
+Hypothesis cj_0 : cj k0 = k0.
+Hypothesis cj_1 : cj k1 = k1.
+Theorem C11_centred_expectation_is_dense : forall pre s post O,
+  lchain K 1 pre (chiL K s) -> lchain K (chiR K s) post 1 -> Forall (left_iso K k0 k1 kadd kmul cj) pre -> Forall (right_iso K k0 k1 kadd kmul cj) post ->
+  dense_expect K k0 k1 kadd kmul cj pre s post O = local_expect K k0 kadd kmul cj s O.
+Proof. exact (centred_expectation K k0 k1 kadd kmul ksub kopp cj Kring cj_add cj_mul cj_0 cj_1). Qed.
+Theorem C11_dense_expectation_sums_all_strings : forall pre s post O,
+  dense_expect K k0 k1 kadd kmul cj pre s post O =
+  sum_over K k0 kadd pre (fun tau => bsum K k0 kadd (d K s) (fun p => bsum K k0 kadd (d K s) (fun p' => sum_over K k0 kadd post (fun rho =>
+    kmul (O p p') (kmul (run K k0 kadd kmul (step K k0 kadd kmul (run K k0 kadd kmul (e0 K k0 k1) pre tau) s p') post rho 0)
+                        (cj (run K k0 kadd kmul (step K k0 kadd kmul (run K k0 kadd kmul (e0 K k0 k1) pre tau) s p) post rho 0))))))).
+Proof. exact (dense_expect_is_sum_over_strings K k0 k1 kadd kmul ksub kopp cj Kring). Qed.
+Theorem C11_merged_tensor_composes_steps : forall v s1 s2 q r, chiR K s1 = chiL K s2 ->
+  step K k0 kadd kmul v (merge K k0 kadd kmul s1 s2) q r = step K k0 kadd kmul (step K k0 kadd kmul v s1 (q / d K s2)) s2 (q mod d K s2) r.
+Proof. exact (step_merge K k0 k1 kadd kmul ksub kopp Kring). Qed.
+End Expect.
+Print Assumptions C11_centred_expectation_is_dense.
+Print Assumptions C11_dense_expectation_sums_all_strings.
+Print Assumptions C11_merged_tensor_composes_steps.
 
 Example C11_example : let l := [ {| oid := 0; kind := Local1; site := 3 |}; {| oid := 1; kind := Diag; site := 0 |};
                                  {| oid := 2; kind := Bond; site := 1 |}; {| oid := 3; kind := Local2; site := 1 |} ] in
